@@ -24,12 +24,15 @@ def lt_feedback(ec, mp, dps, steps, r, a, c, out):
 
 def g_lm(ctx, ec, em, mp, cfg):
     events = []
+    seen = []
     n = 0
     for st in S.stepped_vectors(ctx, "g_full", cfg, keep=lambda s: s["stepped"] and s["cnt"] >= 1):
         c = st["cmd"]
         r, a, acc_in, T, steps = c["r"], c["a"], c["c"], st["tick"], st["cnt"]
         want = (T, st["pos"], st["acc"])
         n += 1
+        if len(seen) < 30000 and n % 2 == 0:
+            seen.append((steps, r, a, acc_in, want))
         dps = S.DPS_CHOICES[(r + a + T) % len(S.DPS_CHOICES)]
         forms = [(steps, r, a, "calculate_lm")]
         if r <= 0:
@@ -57,6 +60,13 @@ def g_lm(ctx, ec, em, mp, cfg):
         if n % 5003 == 1:
             ctx.sample({"mode": "G", "steps": steps, "rate": r, "accel": a, "accum": "clear" if acc_in == S.CLEAR else acc_in,
                         "stepped_first_tick": {"T": T, "pos": want[1], "acc": want[2]}, "calculate_lm": repr(got)})
+    for (steps, r, a, acc_in, want) in reversed(seen):             # opposite order: no answer may depend on earlier calls
+        got = call_lm(ec, mp, 15, steps, r, a, acc_in)
+        if got != want:
+            ctx.violation("lm.duration_is_first_tick", {"mode": "G", "fn": "calculate_lm", "steps": steps, "rate": r, "accel": a, "accum": acc_in, "dps": 15,
+                                                        "order": "second pass, reverse order"}, list(want), repr(got))
+            if ctx.enough(30):
+                break
     vs = S.judge(ctx, "g_cross", events)
     off = [(e, v) for e, v in zip(events, vs) if v != "ok"]
     if off:
